@@ -458,6 +458,11 @@ func genC08(g *srvGen) drv.SCase {
 			}
 		}
 	}
+	if !noElection && r.Chance(1, 3) && base.Lo > 1 {
+		// the primary announces a lower id (it keeps the role and the server keeps the highest id it has learnt: the
+		// Flush decisions below are still made against base); its operations are stamped with the new, lower id and rejected
+		g.announce(s, drv.U128{Hi: base.Hi, Lo: base.Lo - 1})
+	}
 	nflush := 1 + r.Intn(3)
 	for i := 0; i < nflush; i++ {
 		f := &drv.FlushSpec{}
